@@ -271,3 +271,33 @@ impl Engine for OrswotEng {
         path.contains(".add") || path.contains(".rm") || path.starts_with("clock") || path.starts_with("read_ctx")
     }
 }
+
+impl crate::drive::Driveable for OrswotEng {
+    fn random_cmd(s: &S, rng: &mut rand::rngs::StdRng, d: &Dims) -> Option<Value> {
+        use rand::Rng;
+        let m = rng.gen_range(1..=d.m) as u64;
+        let present: Vec<u64> = s.read().val.iter().map(|x| *x as u64).collect();
+        let roll: f64 = rng.gen();
+        Some(if roll < 0.45 {
+            json!({"c": "add", "m": m, "ms": []})
+        } else if roll < 0.55 {
+            let m2 = rng.gen_range(1..=d.m) as u64;
+            let mut ms = vec![m, m2];
+            ms.sort();
+            ms.dedup();
+            if ms.len() < 2 {
+                json!({"c": "add", "m": m, "ms": []})
+            } else {
+                json!({"c": "addall", "m": 0, "ms": ms})
+            }
+        } else if roll < 0.9 {
+            if present.is_empty() {
+                json!({"c": "rm", "m": m, "ms": []})
+            } else {
+                json!({"c": "rm", "m": present[rng.gen_range(0..present.len())], "ms": []})
+            }
+        } else {
+            json!({"c": "rmall", "m": 0, "ms": [m]})
+        })
+    }
+}
